@@ -52,6 +52,7 @@ def _unit_worker(job):
         out['n_generated'] = len(obs)
         idx = 0
         nfail = {}
+        retry = []
         for ob in obs:
             if tags and not (set(ob.tags) & set(tags)) and ob.kind not in ('loop-entry', 'loop-step', 'loop-frame', 'pre'):
                 continue
@@ -77,7 +78,15 @@ def _unit_worker(job):
                        'note': ob.note, 'reason': res.get('reason', '')[:160]}
                 if res['status'] != 'discharged' or len(out['results']) < 3:
                     rec['goal'] = str(g)[:600]
+                if res['status'] == 'unknown' and 'timeout' in res.get('reason', '') and not res.get('reason', '').startswith('skipped'):
+                    retry.append((rec, getattr(ob, 'hyps_full', None) or ob.hyps, g))
                 out['results'].append(rec)
+        # a time-out is not a verdict: one more attempt with three times the budget (a busy machine must not flip a verdict)
+        for rec, hyps, g in retry[:6]:
+            res = solve_one((0, to_smt2(hyps, g), 3 * timeout_ms, use_cvc5))
+            rec['seconds'] = round(rec['seconds'] + res['seconds'], 3)
+            if res['status'] != 'unknown':
+                rec.update(status=res['status'], backend=res['backend'] + '+retry', reason=res.get('reason', '')[:160])
         live = 0
         for kind_, ob in canaries:
             r = solve_one((0, to_smt2(ob.hyps, ob.goal), 1500, False))
